@@ -245,4 +245,19 @@ def Instr.isWindowHead : Instr → Bool
   | .popLevel => true
   | _ => false
 
+def Tr.isStackOp' : Tr → Bool
+  | .stackOp .. => true
+  | _ => false
+
+/-- in the history segment `tr` (newest first) no stack operation is newer than the pop of level `q` -/
+def noOpAfterCloseB (q : Nat) : List Tr → Bool
+  | [] => true
+  | t :: tr => (!t.isStackOp' || !tr.contains (.closeLevel q)) && noOpAfterCloseB q tr
+
+/-- once `close_loop` has popped level `q` (the loop of a modal screen), the code that closed the screen
+performs no further stack operation (in the history segment `tr`) -/
+def NoStackOpAfterClose (q : Nat) (tr : List Tr) : Prop := noOpAfterCloseB q tr = true
+
+instance (q : Nat) (tr : List Tr) : Decidable (NoStackOpAfterClose q tr) := inferInstanceAs (Decidable (_ = _))
+
 end Simpleline
